@@ -21,11 +21,15 @@ structure Cli where
   now : Nat := 0
   tstart : Nat := 0
   tstop : Nat := 0
+  /-- the byte-stream side of the client (the C09 connection model): `.txbs`, `.rxbs`, `.cutoff` belong to the client
+  object and survive a reopen; the kernel-response scripts belong to the current socket -/
+  io : Conn := { kind := .client }
 deriving Repr
 
 /-- a client constructed at tyme 0: its retry tymer runs from 0 for `tymeout` -/
 def Cli.make (tls reconnectable : Bool) (tymeout : Nat) : Cli :=
-  { tls := tls, reconnectable := reconnectable, tymeout := tymeout, tstop := tymeout }
+  { tls := tls, reconnectable := reconnectable, tymeout := tymeout, tstop := tymeout,
+    io := { kind := if tls then .clientTls else .client } }
 
 /-- `close`: `if self.cs: shutdown; cs.close(); cs = None; accepted = connected = opened = False` -/
 def Cli.close (c : Cli) : Cli :=
@@ -36,14 +40,16 @@ def Cli.close (c : Cli) : Cli :=
 /-- `open`: a fresh socket -/
 def Cli.open (c : Cli) : Cli :=
   { c with cs := some c.nextSid, openIds := c.openIds ++ [c.nextSid], nextSid := c.nextSid + 1,
-           accepted := false, connected := false, hsq := [] }
+           accepted := false, connected := false, hsq := [],
+           io := { c.io with cutoff := false, sends := [], recvs := [], peerGone := false } }
 
 def Cli.reopen (c : Cli) : Cli := c.close.open
 
 /-- `accept`: `connect_ex` returned `rc` -/
 def Cli.accept (c : Cli) (rc : Nat) : Cli :=
   let c := if c.cs.isNone then c.reopen else c
-  if rc = 0 ∨ rc = Gen.Tcp.eisconn then { c with accepted := true, connected := if c.tls then c.connected else true }
+  if rc = 0 ∨ rc = Gen.Tcp.eisconn then
+    { c with accepted := true, connected := if c.tls then c.connected else true, io := { c.io with cutoff := false } }
   else if rc = Gen.Tcp.einval ∨ rc = Gen.Tcp.econnrefused then c.reopen
   else c
 
@@ -83,19 +89,52 @@ def Cli.serviceConnect (c : Cli) (rc : Nat) : Cli × Option Exn :=
     | (c1, none) =>
       if !c1.connected && c1.reconnectable && c1.timedOut then (c1.retry, none) else (c1, none)
 
+/-- `serviceSends(); serviceReceives()` on the current socket (both guarded by `.connected and not .cutoff`) -/
+def Cli.serviceIO (c : Cli) : Cli × Option Exn :=
+  let r1 := Tcp.serviceSends { c.io with connected := c.connected }
+  match r1.2 with
+  | some e => ({ c with io := r1.1 }, some e)
+  | none =>
+    let r2 := Tcp.serviceReceives r1.1
+    ({ c with io := r2.1 }, r2.2)
+
+/-- `Client.service()`: `serviceConnect(); serviceSends(); serviceReceives()` -/
+def Cli.service (c : Cli) (rc : Nat) : Cli × Option Exn :=
+  match c.serviceConnect rc with
+  | (c1, some e) => (c1, some e)
+  | (c1, none) => c1.serviceIO
+
 inductive COp where
   | reopen | close | connect (rc : Nat) (hs : Option HResp) | tick (d : Nat)
+  /-- `client.wind(tymth)` onto a tymist whose tyme is `t`: the retry tymer restarts there with the same duration -/
+  | wind (t : Nat)
+  /-- the kernel will answer the current socket's next sends / recvs like this -/
+  | feed (sends : List SResp) (recvs : List RResp)
+  | tx (d : Bytes)
+  /-- a full `service()` pass: connect attempt (as `connect`), then sends, then receives -/
+  | service (rc : Nat) (hs : Option HResp)
 deriving Repr
 
 def Cli.step (c : Cli) : COp → Cli × Option Exn
   | .reopen => (c.reopen, none)
   | .close => (c.close, none)
   | .tick d => ({ c with now := c.now + d }, none)
+  | .wind t => ({ c with now := t, tstart := t, tstop := t + (c.tstop - c.tstart) }, none)
+  | .feed sends recvs =>
+    (match c.cs with
+     | some _ => { c with io := { c.io with sends := c.io.sends ++ sends, recvs := c.io.recvs ++ recvs } }
+     | none => c, none)
+  | .tx d => ({ c with io := { c.io with txbs := c.io.txbs ++ d } }, none)
   | .connect rc hs =>
     let c := match hs, c.cs with
       | some h, some _ => { c with hsq := c.hsq ++ [h] }
       | _, _ => c
     c.serviceConnect rc
+  | .service rc hs =>
+    let c := match hs, c.cs with
+      | some h, some _ => { c with hsq := c.hsq ++ [h] }
+      | _, _ => c
+    c.service rc
 
 def Cli.run (c : Cli) : List COp → Cli
   | [] => c
